@@ -34,7 +34,7 @@ def analyse_program(ck, build, tid, ks, rel, rules=("EFFECT", "ABI", "SCHED", "S
                "under the macro set of target %s the file defines no %s (%d instructions after preprocessing): its guard does not match the backend macro that tinyjambu-backend-select.h defines"
                % (tid, entry, len(ins)), where=rel)
         return 0, 0, 0
-    M = asmx.Machine(fam, ins, labels, entry, klen, windowed=(tid == "xtensa-windowed"))
+    M = asmx.Machine(fam, ins, labels, entry, klen, windowed=(tid == "xtensa-windowed"), xlen=(64 if tid == "riscv64i" else 32))
     paths = M.run()
     H = M.head_state
     if H is None:
@@ -166,6 +166,20 @@ def analyse_program(ck, build, tid, ks, rel, rules=("EFFECT", "ABI", "SCHED", "S
                 ck.ob((4 * j) % nk == 0, "R-C05-SCHED", fn, "key-period@%s" % prog,
                       "loop body of %d rounds consumes a whole number of key periods (%d words)" % (j, nk),
                       "loop body of %d rounds does not realign the key schedule (4*%d mod %d != 0)" % (j, j, nk), where=wh(ins[M.loop_head].line))
+                # RV64: the registers are 64 bits wide; the summary of one iteration starts from sign-extended words (lw), so the
+                # upper halves must be sign extensions again when the loop comes round
+                stale = [r for r in sorted(set(state_regs) | set(key_regs)) if r in getattr(p, "hi", {})]
+                if stale:
+                    # harmless as long as nothing in the program looks at an upper half (only a full-width right shift or a 64-bit store of data can);
+                    # otherwise the iteration summary, which starts from sign-extended words, does not describe the second iteration
+                    wide = any(I_.op == "shr" and not (len(I_.a) > 3 and I_.a[3]) for I_ in ins) \
+                        or any(e_[0] == "store" and e_[3] == 8 and not isinstance(e_[4], asmx.Lin) for q_ in paths for e_ in q_.events)
+                    if wide and bad is None:
+                        raise Broken("%s: bits 32..63 of %s are not sign extensions at the back edge and the program contains full-width right shifts / 64-bit stores: "
+                                     "the per-iteration summary does not cover the following iterations" % (prog, stale))
+                    if not wide:
+                        ck.ok("R-C05-STEP", fn, "upper-halves-unobserved@%s" % prog, "upper register halves of %s differ from the sign extension at the back edge, but no instruction of the program reads an upper half" % stale,
+                              where=wh(ins[M.loop_head].line))
                 # invariants at the back edge
                 for r, v in list(key_regs.items()) + list(inv_regs.items()):
                     if p.regs.get(r) != v and (r in p.reads_head or r in key_regs or r == spn):
